@@ -227,8 +227,15 @@ def run_impl_sequence(g, ops, hash_mode=False):
     broken = set(L.inv_classes(g))
     # names the caller chose (start geometry, edit arguments): a collision between two of them once padding is stripped is the
     # caller's doing; a collision involving a name the LIBRARY made up (split_column, refine, decompose_columns, ...) is not
-    user_names = set(o.name for lst in (g.columnlist, g.nodelist, g.layerlist) for o in lst) | _strings(ops)
+    start_names = set(o.name for lst in (g.columnlist, g.nodelist) for o in lst)
+    user_names = start_names | set(o.name for o in g.layerlist) | _strings(ops)
+    # the justification of the names of the start geometry; a caller who brings in names justified the other way mixes the two
+    # styles himself (the library infers the style from the block names): such sequences are not judged after a round trip
+    left = any(n != n.strip().rjust(len(n)) for n in start_names)
+    just = (lambda n: n.strip().ljust(len(n))) if left else (lambda n: n.strip().rjust(len(n)))
     culprit = None
+    mixed = False
+    op_names = _strings(ops)
     for t, op in enumerate(ops):
         if op[0] in L.HINTED and op[0] not in ('fs', 'cg') and (broken & set(STRUCTURAL)):
             break        # set-iteration order decides what a compound edit does on an inconsistent object graph: not compared
@@ -248,13 +255,14 @@ def run_impl_sequence(g, ops, hash_mode=False):
             out.fails.append((t, '%s:other-geometry' % L.OP_METHOD[op[0]], od))
             g._c10_other_dump = L.dump(g._c10_other)          # reported once
         if culprit is None and any(any(n not in user_names for n in grp) for _, grp in L.stripped_collisions(g)): culprit = t
+        if not mixed: mixed = any(o.name != just(o.name) for lst in (g.columnlist, g.nodelist) for o in lst if o.name in op_names and o.name not in start_names)
         broken = judge(g, op, dom, broken, out, t, before)
     # "... each optionally followed by a file round trip": exercised when the object graph in memory is consistent and either the
     # names are distinct once stripped, or the clash involves a name the library generated
     if out.steps and not (broken & (set(STRUCTURAL) | set(['neighbours']))):
         try:
             clash = L.stripped_collisions(g)
-            if (not clash or culprit is not None) and all(c.surface is not None for c in g.columnlist) and len(g.layerlist) > 0:
+            if not mixed and (not clash or culprit is not None) and all(c.surface is not None for c in g.columnlist) and len(g.layerlist) > 0:
                 rt = L.round_trip_defects(g)
                 if rt:
                     t = culprit if culprit is not None else out.steps - 1
